@@ -78,6 +78,46 @@ def visitStructRec (sy : Symbols) : Nat → Struct → Graph → Except Stage Gr
     if g.hasCycle then .ok g
     else structFieldsWith sy (visitStructRec sy fuel) s.name s.fields g
 
+/-- the parameter loop of `visit_param_structs`: every parameter whose type names a struct
+    makes that struct a node of the struct graph and is walked like a struct of the file -/
+def cycParamStructs (sy : Symbols) (fuel : Nat) : List Param → Graph → Except Stage Graph
+  | [], g => .ok g
+  | p :: ps, g =>
+    match p.ty with
+    | .custom c =>
+      match sy.structLookup c with
+      | none => cycParamStructs sy fuel ps g          -- an interface name: nothing to do
+      | some cs =>
+        match visitStructRec sy fuel cs (g.addNode cs.name) with
+        | .error e => .error e
+        | .ok g' => cycParamStructs sy fuel ps g'
+    | _ => cycParamStructs sy fuel ps g
+
+def memberParamStructs (sy : Symbols) (fuel : Nat) : List Member → Graph → Except Stage Graph
+  | [], g => .ok g
+  | .func m :: ms, g =>
+    match cycParamStructs sy fuel m.params g with
+    | .error e => .error e
+    | .ok g' => memberParamStructs sy fuel ms g'
+  | _ :: ms, g => memberParamStructs sy fuel ms g
+
+/-- `visit_param_structs`: the interface and its ancestors, as long as the interface graph
+    built so far has no cycle -/
+def visitParamStructs (sy : Symbols) (fuel : Nat) (ig : Graph) : Nat → Iface → Graph → Except Stage Graph
+  | 0, _, _ => .error .fuel
+  | k+1, i, sg =>
+    if ig.hasCycle then .ok sg
+    else
+      match memberParamStructs sy fuel i.members sg with
+      | .error e => .error e
+      | .ok sg' =>
+        match i.base with
+        | none => .ok sg'
+        | some b =>
+          match sy.ifaceLookup b with
+          | none => .ok sg'
+          | some bi => visitParamStructs sy fuel ig k bi sg'
+
 /-- `Cycles::run_pass`: walk the main file's nodes, then both toposorts -/
 def cyclesPass (sy : Symbols) (fuel : Nat) (nodes : List Node) : Except Stage (List Nat) :=
   let rec walk : List Node → Graph → Graph → Except Stage (Graph × Graph)
@@ -85,7 +125,10 @@ def cyclesPass (sy : Symbols) (fuel : Nat) (nodes : List Node) : Except Stage (L
     | .iface i :: ns, sg, ig =>
       match visitIfaceRec sy fuel i ig with
       | .error e => .error e
-      | .ok ig' => walk ns sg (ig'.addNode i.name)
+      | .ok ig' =>
+        match visitParamStructs sy fuel (ig'.addNode i.name) fuel i sg with
+        | .error e => .error e
+        | .ok sg' => walk ns sg' (ig'.addNode i.name)
     | .struct s :: ns, sg, ig =>
       match visitStructRec sy fuel s sg with
       | .error e => .error e
